@@ -18,9 +18,9 @@ return true, nil
 and in `inputData` (server side, open-session request, session attached):
 `if userName := s.UserName(); userName != "" { if !quotaOK { s.status = statusQuotaExhausted; s.Close(); return nil } }`.
 
-The code reads the clock once per quota; the model uses one `now`. `days ≥ 0` is assumed where the
-model is compared with the code (`DeltaBetween` panics when `then` is after `now`; the configuration
-validator rejects `days ≤ 0`). Core Lean only.
+The code reads the clock once per quota; the model uses one `now`. The code clamps `days` into
+`[0, MaxInt64/(24 h)] = [0, 106751]` before multiplying (repo commit "fix: keep the quota lookback
+period inside the range of time.Duration"); `clampDays` below. Core Lean only.
 -/
 namespace Mieru.Quota
 open Mieru.Counter
@@ -44,9 +44,15 @@ deriving Repr
 def nsPerDay : Int := 24 * 3600 * 1000000000
 def bytesPerMB : Int := 1048576
 
+/-- `math.MaxInt64 / (24 * time.Hour)` -/
+def maxDays : Int := 106751
+
+/-- `days := int64(quota.Days()); if days < 0 { days = 0 }; if days > maxDays { days = maxDays }` -/
+def clampDays (d : Int) : Int := if d < 0 then 0 else if d > maxDays then maxDays else d
+
 /-- `totalBytes` of one loop iteration -/
 def totalBytes (q : Quota) (m : UserMetrics) (now : Int) : Int :=
-  window m.up (now - q.days * nsPerDay) now + window m.down (now - q.days * nsPerDay) now
+  window m.up (now - clampDays q.days * nsPerDay) now + window m.down (now - clampDays q.days * nsPerDay) now
 
 /-- `totalBytes/1048576 > int64(quota.Megabytes())` (Go's `/` truncates toward zero) -/
 def exceeded (q : Quota) (m : UserMetrics) (now : Int) : Prop :=
@@ -77,34 +83,11 @@ structure Server where
 def refused (sv : Server) (user : String) (now : Int) : Bool :=
   user ≠ "" && !(checkQuota (sv.policies user) user sv.metrics now)
 
-/-! ## What a server session does with an open-session request (order of effects in `inputData`)
-
-`StreamUnderlay/PacketUnderlay.onOpenSessionRequest` creates the session, delivers the request segment
-to it and hands the session to `Accept` (`readySessions <- session`) unconditionally.
-`Session.input → inputData` FIRST inserts the segment — with the payload the client piggy-backed on
-the request, at most `MaxSessionOpenPayload` bytes — into `recvQueue`, and only THEN, for an
-open-session request on an attached server session, evaluates `checkQuota`; on refusal it sets
-`status = statusQuotaExhausted` and calls `Close()`, which deliberately keeps `recvQueue`
-("read is allowed after the session is closed"); `Session.Read` drains `recvQueue` before it looks at
-`closedChan`.  So the application that accepted the session can read the piggy-backed payload of a
-refused session.  (Not tied to the code by a run yet: needs the integrator's in-memory network.) -/
-
-structure OpenOutcome where
-  /-- handed to the application by `Accept` -/
-  accepted : Bool
-  refused : Bool
-  /-- close status sent to the client: 1 = quota exhausted, 0 = OK / still open -/
-  status : Nat
-  /-- bytes the server application can `Read` from the session because of this request -/
-  readable : List UInt8
-deriving Repr
-
+/-- `statusQuotaExhausted` (tied to the regenerated constant in Props/C19) -/
 def statusQuotaExhausted : Nat := 1
 
-def onOpenRequest (sv : Server) (user : String) (payload : List UInt8) (now : Int) : OpenOutcome :=
-  let r := refused sv user now
-  -- the quota is evaluated BEFORE the piggy-backed payload is queued for the application
-  -- (repo commit "fix: check user quota before queueing the payload of an open session request")
-  { accepted := true, refused := r, status := if r then statusQuotaExhausted else 0, readable := if r then [] else payload }
+/-! The order of effects of an open-session request in `inputData` (quota evaluated BEFORE anything is
+queued; on refusal status, close, return) is modelled in `Mieru.Acct.inputOn` (Model/Acct.lean), as
+part of the session-level transition system. -/
 
 end Mieru.Quota
